@@ -33,8 +33,11 @@ type Obl struct {
 	Contract string // text of the clause
 	// result
 	Res SolverResult
-	// for cover / canary obligations the expected status is sat
+	// for cover obligations the expected status is sat (quantified facts are left out of the query);
+	// for canary obligations (goal false, all facts) anything but unsat is expected
 	ExpectSat bool
+	Canary    bool
+	GroundOnly bool // script without quantified facts (used to search for a counterexample)
 }
 
 type watch struct {
@@ -114,6 +117,8 @@ type FnCtx struct {
 	qctr      int
 	spawned   []string
 	ownT      []modTarget
+	retReach  []string
+	witness   map[string]string
 }
 
 func (e *Engine) newFnCtx(fn *ssa.Function, c *Contract) *FnCtx {
@@ -220,6 +225,22 @@ func (o *Obl) script(withModel bool) string {
 		b.WriteString(d + "\n")
 	}
 	for _, it := range fc.items[:o.NItems] {
+		if (o.ExpectSat || o.GroundOnly) && (strings.Contains(it, "(forall ") || strings.Contains(it, "(exists ")) {
+			if strings.HasPrefix(it, "(define-fun ") {
+				// keep the name, forget the quantified definition
+				f := strings.SplitN(it, " () ", 2)
+				name := strings.TrimPrefix(f[0], "(define-fun ")
+				rest := f[1]
+				var sort string
+				if strings.HasPrefix(rest, "(") {
+					sort = rest[:matchParen(rest, 0)+1]
+				} else {
+					sort = strings.SplitN(rest, " ", 2)[0]
+				}
+				b.WriteString("(declare-const " + name + " " + sort + ")\n")
+			}
+			continue
+		}
 		b.WriteString(it + "\n")
 	}
 	if o.ExpectSat {
@@ -460,12 +481,12 @@ func (fc *FnCtx) wf(v V, st *State) string {
 		b, o, l, c := v.T[0], v.T[1], v.T[2], v.T[3]
 		return and(sx(">=", b, "0"), sx("<", b, st.ac),
 			sx("bvsle", bvLit(0, 64), l), sx("bvsle", l, c), sx("bvsle", bvLit(0, 64), o),
-			sx("bvult", c, bvLit(1<<48, 64)), sx("bvult", o, bvLit(1<<48, 64)),
+			sx("bvult", c, bvLit(1<<46, 64)), sx("bvult", o, bvLit(1<<46, 64)),
 			implies(eq(b, "0"), and(eq(l, bvLit(0, 64)), eq(c, bvLit(0, 64)))))
 	case *types.Basic:
 		if u.Info()&types.IsString != 0 {
 			sl := sx("slen", v.T[0])
-			return and(sx("bvsle", bvLit(0, 64), sl), sx("bvult", sl, bvLit(1<<48, 64)),
+			return and(sx("bvsle", bvLit(0, 64), sl), sx("bvult", sl, bvLit(1<<46, 64)),
 				eq(eq(sl, bvLit(0, 64)), eq(v.T[0], emptyStrSid)))
 		}
 		return "true"
